@@ -61,3 +61,113 @@ CHECKS["C22"] = dict(
                  "'quick-saturation number' = the package threshold in force (4 by default, BinMaxPeers/5 when configured)",
                  "no Start: the manage loop (dial-outs, pruning) is not running; observations are made after each call returns"],
 )
+
+
+# ------------------------------------------------------------------------------------ C23
+CHECKS["C23"] = dict(
+    modules=["kad"], level="model_checking", driver="kaddrv",
+    design_ref="5 (C23)",
+    technique="TLA+ definition of eligibility and of the XOR order on modelled address bits; TLC checks the order against the XOR "
+              "distance as a natural number and the code-shaped scan against the verdict, generates topologies and the product of "
+              "queries; a real kademlia.Kad answers them; the answers are judged by the TLA+ trace spec",
+    level_text="TLC proves on a bounded universe that the bitwise order used by the judge is the XOR-distance order and that the "
+               "verdict admits the scan; it generates event walks whose final topology is queried with the product targets x "
+               "skip lists x reachability filter x includeSelf x own reachability (ClosestPeer) and targets x counts x filter x skip "
+               "lists (ClosestPeers); every answer is judged by KadTrace.tla",
+    level_note=_KAD_TRUSTED + "; with no eligible peer the statement's two 'exactly when' clauses overlap: both 'not found' and (with "
+               "includeSelf) 'want self' are accepted there, the code's choice is recorded as a conformance note only; self counts as "
+               "certainly eligible iff includeSelf and own reachability Public (code contract), as possibly eligible iff includeSelf",
+    design=[dict(spec="MCKad.tla", cfg="MCKadFnC.cfg", cfg_thorough="MCKadFnC_thorough.cfg", workers=8, timeout=1500)],
+    gen=dict(
+        quick=[_gen("KadGenQuery.cfg", "sim", "queries", dict(VERIF_UNIV="cp", VERIF_BINMAX=5), depth=14, num=3, max=5)],
+        thorough=[_gen("KadGenQuery.cfg", "sim", "queries", dict(VERIF_UNIV="cp", VERIF_BINMAX=5), depth=14, num=25, max=40),
+                  _gen("KadGenQuery.cfg", "sim", "queries-short", dict(VERIF_UNIV="cp", VERIF_BINMAX=5), depth=6, num=15, max=15, salt=1),
+                  _gen("KadGenQuery.cfg", "sim", "queries-allreach", dict(VERIF_UNIV="cp", VERIF_BINMAX=5, VERIF_ALLREACH=1), depth=12, num=8, max=8, salt=2)]),
+    judge=dict(spec="KadTrace.tla", cfg="KadTrace.cfg"),
+    judge_timeout=3000, driver_timeout=2400,
+    corrupt=corrupt_field("closest", "err", lambda e: "notfound" if e["err"] == "" else None),
+    nontrivial=lambda s: any(o["op"] in ("closest", "closestn") for o in s["ops"]) and any(o["op"] in ("connected", "outbound") for o in s["ops"]),
+    rule="TLC -simulate walks of the event model (<= 7 connected peers over bins 0,1,2,30,31, ids chosen so that XOR order and numeric "
+         "order differ) each followed by ~1270 TLC-enumerated queries: 8 targets (peer addresses, in-bin neighbours, empty bin, deepest "
+         "bins, self) x includeSelf x filter x skip lists (all subsets up to 4 peers; singletons, all-but-one, all, by reachability, by bin "
+         "beyond), repeated after flipping own reachability; ClosestPeers with counts 0,1,3,n,n+2; distinct = distinct operation sequence",
+    exhaustive=dict(quick=False, thorough=False),
+    assumptions=["XOR order is decided on the modelled bits: kadaddr gives every address the base's tail",
+                 "skip lists contain connected peers only"],
+)
+
+# ------------------------------------------------------------------------------------ C24
+CHECKS["C24"] = dict(
+    modules=["kad"], level="model_checking", driver="kaddrv",
+    design_ref="5 (C24)",
+    technique="TLA+ model of connection tracking and admission checked by TLC; TLC-generated histories (one per edge of the state graph "
+              "modulo peer symmetry, plus walks) replayed on a real kademlia.Kad; the reported peer sets and every admission are judged by the TLA+ trace spec",
+    level_text="TLC exhausts the event model (connect in/out, boot-node outbound, disconnect, forced disconnect, protect, add-peers) over "
+               "a small universe; it generates one shortest history per (state, operation) edge modulo interchangeable peers from an "
+               "empty and from a nearly saturated topology, plus random walks with reachability; after every event EachPeer/Snapshot/"
+               "EachKnownPeer are compared with the model and every admission with the over-saturation rule by KadTrace.tla",
+    level_note=_KAD_TRUSTED + "; 'oversaturated' is read as: the bin lies below the potential depth (deepest envelope depth of the known-peer "
+               "set, radius ignored) and holds >= max reachable connected peers; refusals are conformance notes (the statement only "
+               "constrains admissions); static nodes and boot-node mode of the own node are not exercised",
+    design=[dict(spec="MCKad.tla", cfg="MCKadA.cfg", workers=8, timeout=900),
+            dict(spec="MCKad.tla", cfg="MCKad.cfg", workers=8, timeout=2400, thorough_only=True)],
+    gen=dict(
+        quick=[_gen("KadGenEdges.cfg", "edges", "edges-empty", dict(VERIF_UNIV="adm", VERIF_BINMAX=5, VERIF_ALLREACH=1, VERIF_PREFILL=0), depth=3, workers=4, max=250),
+               _gen("KadGenEdges.cfg", "edges", "edges-filled", dict(VERIF_UNIV="adm", VERIF_BINMAX=5, VERIF_ALLREACH=1, VERIF_PREFILL=4), depth=3, workers=4, max=350),
+               _gen("KadGenWalk.cfg", "sim", "walks", dict(VERIF_UNIV="adm", VERIF_BINMAX=5), depth=40, num=4, max=40)],
+        thorough=[_gen("KadGenEdges.cfg", "edges", "edges-empty", dict(VERIF_UNIV="adm", VERIF_BINMAX=5, VERIF_ALLREACH=1, VERIF_PREFILL=0), depth=4, workers=4, max=1200),
+                  _gen("KadGenEdges.cfg", "edges", "edges-filled", dict(VERIF_UNIV="adm", VERIF_BINMAX=5, VERIF_ALLREACH=1, VERIF_PREFILL=4), depth=4, workers=4, max=2500),
+                  _gen("KadGenEdges.cfg", "edges", "edges-filled5", dict(VERIF_UNIV="adm", VERIF_BINMAX=5, VERIF_ALLREACH=1, VERIF_PREFILL=5), depth=3, workers=4, max=800),
+                  _gen("KadGenWalk.cfg", "sim", "walks", dict(VERIF_UNIV="adm", VERIF_BINMAX=5), depth=60, num=30, max=400),
+                  _gen("KadGenWalk.cfg", "sim", "walks-allreach", dict(VERIF_UNIV="adm", VERIF_BINMAX=5, VERIF_ALLREACH=1), depth=60, num=20, max=300, salt=1),
+                  _gen("KadGenWalk.cfg", "sim", "walks-default", dict(VERIF_UNIV="depth", VERIF_BINMAX=0), depth=50, num=10, max=100, salt=2)]),
+    judge=dict(spec="KadTrace.tla", cfg="KadTrace.cfg"),
+    judge_timeout=3000, driver_timeout=2400,
+    corrupt=corrupt_field("connected", "st", lambda e: _st(e, conn=e["st"]["conn"][:-1]) if e["err"] == "" and e["st"]["conn"] else None),
+    nontrivial=lambda s: any(o["op"] in ("connected", "outbound") for o in s["ops"]) and any(o["op"] in ("disconnected", "force", "pick", "protect") or (o["op"] == "connected" and not o["force"]) for o in s["ops"]),
+    rule="TLC-generated histories over 8+4 full nodes in two bins and two boot nodes, Options.BinMaxPeers 5 (over-saturation 5): edges "
+         "mode with a VIEW that identifies peers of one bin (per-bin counts of connected / known-only / protected, class of the last "
+         "operation), started from the empty topology and from 3+4 (3+5) connected peers so that the saturation boundary is within "
+         "reach; -simulate walks with reachability reports; distinct = distinct operation sequence; non-trivial = a connection and a "
+         "later disconnection, probe, protection change or unforced inbound connection",
+    exhaustive=dict(quick=False, thorough=False),
+    assumptions=["a peer is either a full node or a boot node for the whole history; light nodes never reach the topology (libp2p keeps them apart)",
+                 "Connected(force=true) is the repository tests' way of an unconditional connection; the admission clause applies to force=false and Pick",
+                 "p2p.Disconnect of the mock succeeds; address-book removal succeeds"],
+)
+
+
+# ------------------------------------------------------------------------------------ C29
+def _hgen(name, env, **kw):
+    d = dict(mode="sim", spec="HiveGen.tla", cfg="HiveGen.cfg", name=name, env=env, depth=12, timeout=900)
+    d.update(kw)
+    return d
+
+
+CHECKS["C29"] = dict(
+    modules=["hive"], level="model_checking", driver="hivedrv",
+    design_ref="5 (C29)",
+    technique="TLA+ reply predicate and two-pass selection mechanism checked by TLC; TLC-generated setups and request products sent "
+              "through streamtest to the real hive2 find-node handler on a real Kad; the replies read from the stream are judged by the TLA+ trace spec",
+    level_text="TLC checks that the two-pass mechanism with the specified split satisfies the five clauses of the statement for every "
+               "request of a bounded product; it samples setups (9 pool peers: absent / connected / known-only x public / private / no "
+               "record; requester class; AllowPrivateCIDRs) and pairs each with the product limits x targets x order lists; every reply "
+               "of the real handler is judged by HiveTrace.tla",
+    level_note="trusted: TLC, streamtest, the protobuf codec, kadaddr, the driver's reverse lookup overlay -> abstract address; underlay "
+               "classes are fixtures (8.8.x.x public; 10.x / 192.168.x private); replies are random subsets, the verdict is an envelope",
+    design=[dict(spec="MCHive.tla", cfg="MCHive.cfg", workers=4, timeout=600)],
+    gen=dict(
+        quick=[_hgen("setups", dict(VERIF_LIMITS="edge"), num=8, max=14)],
+        thorough=[_hgen("setups-all-limits", dict(VERIF_LIMITS="all"), num=30, max=50),
+                  _hgen("setups-edge-limits", dict(VERIF_LIMITS="edge"), num=40, max=70, salt=1)]),
+    judge=dict(spec="HiveTrace.tla", cfg="HiveTrace.cfg"),
+    judge_timeout=3000, driver_timeout=2400,
+    corrupt=corrupt_field("find", "reply", lambda e: e["reply"] + [e["reply"][0]] if e["reply"] else None),
+    nontrivial=lambda s: len(s["par"]["peers"]) >= 2 and len(s["ops"]) > 0,
+    rule="TLC -simulate setups over a pool of 9 peers in bins 0,1,2,3,31 (requester included), each paired with the product of limits "
+         "(0..40 or the boundary values 0,1,2,3,4,5,7,29,30,31,40) x 4 targets (own address, requester, a peer, a free address) x 6 order "
+         "lists (empty, single, the lookup's three orders, deepest, mixed); distinct = distinct (setup, request list)",
+    exhaustive=dict(quick=False, thorough=False),
+    assumptions=["limits are non-negative (the statement's range 0..40)",
+                 "the requester's address class is what the answering node's address book records for it"],
+)
